@@ -83,9 +83,13 @@ func exec(op string) (res string) {
 		}
 		return fmt.Sprint(gocql.VerifHashLess("random", hx(2), hx(4)))
 	case "rkm", "rkmx":
-		return parseRkm(w).run()
+		c := parseRkm(w)
+		c.pl = pl
+		return c.run()
 	case "rkn", "rknx":
-		return parseRkn(w).run()
+		c := parseRkn(w)
+		c.pl = pl
+		return c.run()
 	case "ringsort":
 		return execRingsort(w)
 	case "lessr":
@@ -539,6 +543,11 @@ func main() {
 		}
 		op := c.op(name)
 		out.Case(op, exec(op), cls, true)
+		if i%5 == 0 {
+			// the same statement with its []byte / string values lying at odd addresses
+			op += " " + genPl(r, -1)
+			out.Case(op, exec(op), "rkm@/"+name, true)
+		}
 	}
 	for i := 0; i < 2000*mult; i++ {
 		s, t := natString(r), natString(r)
@@ -608,6 +617,10 @@ func main() {
 		}
 		op := c.op(name)
 		out.Case(op, exec(op), cls, true)
+		if i%6 == 0 {
+			op += " " + genPl(r, -1)
+			out.Case(op, exec(op), "rkn@/"+name, true)
+		}
 	}
 	out.Close(nil)
 }
